@@ -44,6 +44,7 @@ type xl struct {
 	locals []map[string]string
 	objs   map[types.Object]string // every declared variable has its own name: shadowing declarations get a suffix
 	taken  map[string]bool
+	elemOf map[types.Object]string // a range value variable stands for an element of the slice it ranges over
 }
 
 func die(pos token.Pos, fset *token.FileSet, f string, a ...interface{}) {
@@ -180,8 +181,18 @@ func (x *xl) ptrName(e ast.Expr) string {
 		if c, ok := x.constOf(t.Index); ok {
 			return x.ptrName(t.X) + "[" + c + "]"
 		}
+		// an element chosen by a variable index
+		return x.ptrName(t.X) + "[]"
 	case *ast.ParenExpr:
 		return x.ptrName(t.X)
+	case *ast.Ident:
+		obj := x.info.Uses[t]
+		if obj == nil {
+			obj = x.info.Defs[t]
+		}
+		if a, ok := x.elemOf[obj]; ok {
+			return a + "[]"
+		}
 	}
 	if n, ok := x.varName(e); ok {
 		return n
@@ -500,6 +511,15 @@ func (x *xl) stmt(s ast.Stmt) []string {
 					x.declare(t.Value)
 				}
 				v = x.lhsVar(t.Value)
+				if id, ok := t.Value.(*ast.Ident); ok {
+					obj := x.info.Defs[id]
+					if obj == nil {
+						obj = x.info.Uses[id]
+					}
+					if obj != nil {
+						x.elemOf[obj] = suffixRe.ReplaceAllString(arr, "")
+					}
+				}
 			}
 			return []string{"SRange " + k + " " + v + " " + x.v(arr) + " " + list(x.block(t.Body.List))}
 		}
@@ -587,7 +607,7 @@ func main() {
 		os.Exit(3)
 	}
 	x := &xl{fset: fset, info: info, pkg: pkg, funcs: map[string]*ast.FuncDecl{}, vars: map[string]int{}, ptrs: map[string]int{},
-		objs: map[types.Object]string{}, taken: map[string]bool{}}
+		objs: map[types.Object]string{}, taken: map[string]bool{}, elemOf: map[types.Object]string{}}
 	for _, f := range files {
 		for _, d := range f.Decls {
 			if fd, ok := d.(*ast.FuncDecl); ok && fd.Recv == nil {
